@@ -17,6 +17,7 @@ import "reflect"
 var (
 	vhNAssign = 2 // operands on each side
 	vhDefine  = 0 // 1: the statement is a := (short variable declaration)
+	vhSlotArr = 0 // 1: the variables are arrays [2]int (value semantics: assignment copies)
 )
 
 func vh_C04_assign() {
@@ -24,14 +25,36 @@ func vh_C04_assign() {
 	vhStopAt = -1
 	i := vhNewInterp()
 	intT := &itype{cat: intT, rtype: vTypeOfKind(int(reflect.Int))}
+	if vhSlotArr == 1 {
+		intT = &itype{cat: arrayT, length: 2, val: &itype{cat: intT.cat, rtype: intT.rtype}, rtype: reflect.TypeOf([2]int{})}
+	}
+	// value of a slot as one number (arrays: both elements must agree with a[0], a[0]+1)
+	get := func(v reflect.Value) int64 {
+		if vhSlotArr == 1 {
+			if v.Index(1).Int() != v.Index(0).Int()+1 {
+				return -999999
+			}
+			return v.Index(0).Int()
+		}
+		return v.Int()
+	}
+	put := func(v reflect.Value, x int64) {
+		if vhSlotArr == 1 {
+			v.Index(0).SetInt(x)
+			v.Index(1).SetInt(x + 1)
+			return
+		}
+		v.SetInt(x)
+	}
 	const m = 4
 	f := newFrame(i.frame, m, i.runid())
 	var old [m]int64
 	var oldRef [m]reflect.Value
 	for k := 0; k < m; k++ {
 		old[k] = vNondetInt64("slot")
+		vAssume(old[k] > -1000 && old[k] < 1000)
 		f.data[k] = reflect.New(intT.rtype).Elem()
-		f.data[k].SetInt(old[k])
+		put(f.data[k], old[k])
 		oldRef[k] = f.data[k] // what a closure that captured the variable earlier holds
 	}
 	n := &node{interp: i, kind: assignStmt, action: aAssign, nleft: vhNAssign, nright: vhNAssign}
@@ -92,7 +115,7 @@ func vh_C04_assign() {
 	}
 	ok := true
 	for k := 0; k < m; k++ {
-		if f.data[k].Int() != want[k] {
+		if get(f.data[k]) != want[k] {
 			ok = false
 		}
 	}
@@ -107,10 +130,10 @@ func vh_C04_assign() {
 			}
 			k := dst[a]
 			if redecl[a] {
-				if oldRef[k].Int() != want[k] {
+				if get(oldRef[k]) != want[k] {
 					fresh = false
 				}
-			} else if oldRef[k].Int() != old[k] {
+			} else if get(oldRef[k]) != old[k] {
 				fresh = false
 			}
 		}
@@ -122,6 +145,6 @@ func vh_C04_assign() {
 
 var vhRegistry = map[string]func(){"vh_C04_assign": vh_C04_assign}
 
-var vhIntVars = map[string]*int{"vhNAssign": &vhNAssign, "vhDefine": &vhDefine}
+var vhIntVars = map[string]*int{"vhNAssign": &vhNAssign, "vhDefine": &vhDefine, "vhSlotArr": &vhSlotArr}
 
 var vhScenarios = map[string]func(map[string]string) bool{}
